@@ -108,8 +108,7 @@ func (fe functionExpr) CompletionAtPos(ctx context.Context, pos hcl.Pos) []lang.
 
 	case *hclsyntax.FunctionCallExpr:
 		if eType.NameRange.ContainsPos(pos) {
-			prefixLen := pos.Byte - eType.NameRange.Start.Byte
-			prefix := eType.Name[0:prefixLen]
+			prefix := functionNamePrefix(fe.pathCtx, eType.NameRange, eType.Name, pos)
 			editRange := eType.Range()
 			return fe.matchingFunctions(prefix, editRange)
 		}
@@ -357,4 +356,21 @@ func hoverContentForFunction(name string, funcSig schema.FunctionSignature) lang
 	}
 
 	return lang.Markdown(rawMd)
+}
+
+// functionNamePrefix returns the part of the function name written before pos.
+// The name range may be longer than the name, as blanks are tolerated around "::".
+func functionNamePrefix(pathCtx *PathContext, nameRange hcl.Range, name string, pos hcl.Pos) string {
+	prefixLen := pos.Byte - nameRange.Start.Byte
+	if f, ok := pathCtx.Files[nameRange.Filename]; ok && nameRange.Start.Byte >= 0 && pos.Byte <= len(f.Bytes) && prefixLen >= 0 {
+		written := string(f.Bytes[nameRange.Start.Byte:pos.Byte])
+		prefixLen = len(strings.NewReplacer(" ", "", "\t", "").Replace(written))
+	}
+	if prefixLen < 0 {
+		prefixLen = 0
+	}
+	if prefixLen > len(name) {
+		prefixLen = len(name)
+	}
+	return name[0:prefixLen]
 }
